@@ -189,6 +189,39 @@ func c11b(c *Ctx, a *absVariant) {
 	}
 	sort.Strings(bad)
 	r.Check(len(bad) == 0, "C11-b", "T.addErrAt:typed-positioned", vn, v.Where(fd.Pos()), "&parserError{Inner, pos, prefix(file, line:col (offset), rule)}", strings.Join(bad, "; "))
+	// the message of an entry is prefix + ": " + the original error's message; the list's message joins its entries in order
+	if pe := v.Func("parserError", "Error"); pe != nil {
+		recv := pe.Recv.List[0].Names[0].Name
+		okMsg := false
+		if rs := returnsOf(pe); len(rs) == 1 && len(rs[0].Results) == 1 {
+			okMsg = nospace(rs[0].Results[0]) == recv+`.prefix+":"+`+recv+".Inner.Error()"
+		}
+		r.Check(okMsg, "C11-b", "T.parserError.Error:prefix-then-inner", vn, v.Where(pe.Pos()), `prefix + ": " + Inner.Error()`, "the message of a parser error is not its prefix followed by the wrapped error's message")
+	} else {
+		r.Fatal("variant %s: parserError.Error missing", vn)
+	}
+	if le := v.Func("errList", "Error"); le != nil {
+		recv := le.Recv.List[0].Names[0].Name
+		okJoin, okOne := false, false
+		ast.Inspect(le.Body, func(n ast.Node) bool {
+			switch x := n.(type) {
+			case *ast.RangeStmt:
+				if nospace(x.X) == recv && x.Value != nil {
+					for _, ce := range callsIn(x.Body) {
+						if callSel(ce) == "WriteString" && nospace(ce.Args[0]) == nospace(x.Value)+".Error()" {
+							okJoin = true
+						}
+					}
+				}
+			case *ast.ReturnStmt:
+				if len(x.Results) == 1 && nospace(x.Results[0]) == recv+"[0].Error()" {
+					okOne = true
+				}
+			}
+			return true
+		})
+		r.Check(okJoin && okOne, "C11-b", "T.errList.Error:joins-in-order", vn, v.Where(le.Pos()), "every entry's message, in list order", fmt.Sprintf("joins-all=%t single-entry=%t", okJoin, okOne))
+	}
 	// addErr forwards at the current position
 	if ae := v.Func("parser", "addErr"); ae != nil {
 		ok := false
